@@ -426,18 +426,26 @@ theorem step_exit_sim {cfg : Config} {s : St} {st : Last × List Acc} (h : Sim c
     obtain ⟨g, htl⟩ := removeProc_spec (pid := pid) (time := conv s t) h.inv
     exact h.step g (fun a b => by rw [htl, lastGet_lastDropProc, h.htl])
   · simp only [hpt, if_false]
-    generalize hgb : getByPid s pid = r1
-    obtain ⟨s1, p1⟩ := r1
-    dsimp only
-    obtain ⟨g1, hp1⟩ := getByPid_spec h.inv hgb
-    have hpid1 := (g1.inv.get hp1).1
-    have hs1 := h.goodT g1
-    generalize hrt : removeThread s1 p1 tid (conv s t) = r2
-    obtain ⟨s2, p2⟩ := r2
-    dsimp only
-    obtain ⟨g2, htl2, _, _⟩ := removeThread_spec g1.inv
-      (by rw [hpid1]; exact hp1) (by rw [hpid1]; exact fun e => hpt e.symm) hrt
-    exact hs1.step g2 (fun a b => by rw [htl2, lastGet_lastDropThread, hpid1, hs1.htl])
+    cases hb : alGet s.procs pid with
+    | none =>
+      -- EXIT of a thread of an unknown process: ignored; the specification's table has no entry to drop
+      simp only
+      refine h.step (Good.refl h.inv) (fun a b => ?_)
+      rw [lastGet_lastDropThread, h.htl]
+      split
+      · next hab =>
+        rw [← h.htl, hab.1, hab.2]
+        exact tlP_of_none hb tid
+      · rfl
+    | some p1 =>
+      simp only
+      have hpid1 := (h.inv.get hb).1
+      generalize hrt : removeThread s p1 tid (conv s t) = r2
+      obtain ⟨s2, p2⟩ := r2
+      dsimp only
+      obtain ⟨g2, htl2, _, _⟩ := removeThread_spec h.inv
+        (by rw [hpid1]; exact hb) (by rw [hpid1]; exact fun e => hpt e.symm) hrt
+      exact h.step g2 (fun a b => by rw [htl2, lastGet_lastDropThread, hpid1, h.htl])
 
 theorem step_comm_sim {cfg : Config} {s : St} {st : Last × List Acc} (h : Sim cfg s st) (pid tid : Nat)
     (name : String) (isExec : Bool) (t : Nat) :
